@@ -12,22 +12,23 @@ from pbmon.oracle import c09_popgen as O
 PROPERTY = "C09"
 NSHARDS = {"quick": 4, "thorough": 16}
 CLAUSES = {
-    "C09.returns": 40000,      # every summary call on a valid matrix returns (affirmative-result policy)
-    "C09.definition": 20000,   # tacount/tafreq/acount/afreq/maf/meh/codings == definition on the raw calls
-    "C09.boundary": 20000,     # [0,1]; exactly 0/1 iff count 0/all copies; afixed/apoly == integer definition; complement
-    "C09.classes": 10000,      # gtcount: ploidy+1 classes, >= 0, column sums n, == definition; gtfreq == counts/n
-    "C09.projection": 10000,   # phased matrix and its unphased projection give the same answers
-    "C09.dtype": 10000,        # requested dtypes honoured with equal values
+    "C09.returns": 150000,     # every summary call on a valid matrix returns (affirmative-result policy)
+    "C09.definition": 60000,  # tacount/tafreq/acount/afreq/maf/meh/codings == definition on the raw calls
+    "C09.boundary": 80000,    # [0,1]; exactly 0/1 iff count 0/all copies; afixed/apoly == integer definition; complement
+    "C09.classes": 40000,     # gtcount: ploidy+1 classes, >= 0, column sums n, == definition; gtfreq == counts/n
+    "C09.projection": 50000,  # phased matrix and its unphased projection give the same answers
+    "C09.dtype": 150000,       # requested dtypes honoured with equal values
 }
 HOOKS_REQUIRED = [
     "repo-code",
     "locus fixed at 1 with (1/(ploidy*n))*(ploidy*n) != 1.0",
     "locus fixed at 0", "all-heterozygous locus", "singleton locus",
-    "single taxon", "single marker", "square matrix (ntaxa == nvrnt)", "non-diploid", "fully fixed matrix",
+    "single taxon", "single marker", "non-contiguous raw calls", "ntaxa > 200", "square matrix (ntaxa == nvrnt)", "non-diploid", "fully fixed matrix",
     "subject via DenseUnphasedGenotyping", "subject DenseGenotypeMatrix built directly",
 ]
 RULE = ("seeded class-based matrices: ploidy 2 (65 %) or 1/3/4/6; ntaxa from {1,2,3,7,49,98,103,107,161}, from the sizes "
-        "<= 200 where (1/(ploidy*n))*(ploidy*n) != 1.0, from 1..6 and from 1..200; nvrnt 1..40 (square and cubic shapes "
+        "<= 200 where (1/(ploidy*n))*(ploidy*n) != 1.0, from 1..6, from 1..200 and (2 %) from 201..1500; raw calls C-ordered, "
+        "Fortran-ordered or a strided view; nvrnt 1..40 (square and cubic shapes "
         "forced in their own classes); per-locus patterns fixed-at-1, fixed-at-0, singleton, all-but-one, all-heterozygous, "
         "homozygotes-only, exactly-half, first-copy-only, random p; whole-matrix classes all-fixed-1/0/mixed, all-het, iid. "
         "Each matrix is examined as DensePhasedGenotypeMatrix and as its unphased projection (alternately built directly "
@@ -111,9 +112,13 @@ def gen_case(g):
         n = int(g.choice(BADN[P])); ncls = "n with inexact reciprocal"
     elif r < 0.70:
         n = int(g.integers(1, 7)); ncls = "n tiny"
+    elif r < 0.72:
+        n = int(g.integers(201, 1501)); ncls = "n large (201..1500)"
     else:
         n = int(g.integers(1, 201)); ncls = "n random"
     m = 1 if g.random() < 0.08 else int(g.integers(1, 41))
+    if n > 200:
+        m = min(m, 8)
     mcls = MCLS[int(g.choice(len(MCLS), p=MCLW))]
     if mcls == "square":
         if n > 60:
@@ -139,6 +144,13 @@ def gen_case(g):
         pats.append(pat)
         cols.append(gen_locus(g, P, n, pat))
     mat = numpy.ascontiguousarray(numpy.stack(cols, axis=2).astype("int8"))
+    lay = g.random()
+    if lay < 0.08:      # hostile memory layouts: same values, Fortran order / strided view of a larger buffer
+        mat = numpy.asfortranarray(mat); layout = "fortran"
+    elif lay < 0.16:
+        big = g.integers(0, 2, (P, 2 * n, 2 * m)).astype("int8"); big[:, ::2, ::2] = mat; mat = big[:, ::2, ::2]; layout = "strided view"
+    else:
+        layout = "C"
     meta = {}
     if g.random() < 0.5:
         meta["taxa"] = numpy.array(["t%03d" % i for i in g.permutation(n)], dtype=object)
@@ -147,7 +159,7 @@ def gen_case(g):
         meta["vrnt_chrgrp"] = numpy.sort(g.integers(1, 4, m)).astype("int64")
         meta["vrnt_phypos"] = numpy.arange(1, m + 1, dtype="int64") * 7
         meta["vrnt_name"] = numpy.array(["m%d" % j for j in range(m)], dtype=object)
-    return P, n, m, mat, mcls, ncls, pats, meta
+    return P, n, m, mat, mcls, ncls, pats, meta, layout
 
 
 # ------------------------------------------------------------------ helpers
@@ -380,7 +392,10 @@ def judge_dtype(ctx, S, name, site, dt, out, R, W, coords):
         ctx.check(T, exact(numpy.asarray(out), numpy.array(exp).astype(want).tolist()), site, "values == %s under requested dtype" % ref, icls,
                   witness=dict(w, expected=exp), coords=coords)
     else:
-        tol = TOL if want.itemsize >= 8 else TOL32
+        scale = max(1.0, float(numpy.max(numpy.abs(numpy.asarray(exp, dtype=float)))) if numpy.size(exp) else 1.0)
+        if not scale < float("inf"):
+            scale = 1.0
+        tol = (TOL if want.itemsize >= 8 else TOL32) * scale
         e = fdiff(out, exp)
         if name == "meh" and R.P != 2 and ref == "definition":
             e = min(e, fdiff(out, R.meh_alt))
@@ -479,16 +494,16 @@ def one_case(ctx, c):
     from pybrops.breed.prot.gt.DenseUnphasedGenotyping import DenseUnphasedGenotyping
     repo_code(ctx)
     g = ctx.rng("mat", c)
-    P, n, m, mat, mcls, ncls, pats, meta = gen_case(g)
+    P, n, m, mat, mcls, ncls, pats, meta, layout = gen_case(g)
     N = P * n
     coords = [c, "mat"]
     R = O.reference(mat.tolist())
     iN = "ploidy*n a power of two" if is_pow2(N) else "ploidy*n not a power of two"
     iP = "diploid" if P == 2 else "non-diploid"
     ctx.case("ploidy %d/%s/%s" % (P, mcls, ncls), P, mat, trivial=(n == 1 and m == 1))
-    W = {"ploidy": P, "ntaxa": n, "nvrnt": m, "matrix_class": mcls, "locus_patterns": pats, "mat[copy][taxon][locus]": mat}
+    W = {"ploidy": P, "ntaxa": n, "nvrnt": m, "matrix_class": mcls, "memory_layout": layout, "locus_patterns": pats, "mat[copy][taxon][locus]": mat}
     if c % 173 == 0:
-        ctx.sample({"ploidy": P, "ntaxa": n, "nvrnt": m, "matrix_class": mcls, "n_class": ncls, "locus_patterns": pats,
+        ctx.sample({"ploidy": P, "ntaxa": n, "nvrnt": m, "matrix_class": mcls, "memory_layout": layout, "n_class": ncls, "locus_patterns": pats,
                     "labels": sorted(meta), "allele_counts": R.c,
                     "first_taxa[copy][taxon][locus]": mat[:, :3, :].tolist()})
     # reach counters for the hostile classes the property names
@@ -500,12 +515,13 @@ def one_case(ctx, c):
     ctx.hook("all-heterozygous locus", sum(1 for p_ in pats if p_ in ("allhet", "firstcopy")) if P > 1 else 0)
     ctx.hook("singleton locus", R.c.count(1))
     for nm, cond in (("single taxon", n == 1), ("single marker", m == 1), ("square matrix (ntaxa == nvrnt)", n == m and n > 1),
-                     ("non-diploid", P != 2), ("fully fixed matrix", all(R.fixed))):
+                     ("non-diploid", P != 2), ("fully fixed matrix", all(R.fixed)), ("non-contiguous raw calls", layout != "C"),
+                     ("ntaxa > 200", n > 200)):
         if cond:
             ctx.hook(nm)
 
     try:
-        ph = DensePhasedGenotypeMatrix(mat.copy(), **{k: v.copy() for k, v in meta.items()})
+        ph = DensePhasedGenotypeMatrix(mat if layout != "C" else mat.copy(), **{k: v.copy() for k, v in meta.items()})
     except Exception as e:
         ctx.raised("DensePhasedGenotypeMatrix.__init__", e)
         return
@@ -535,7 +551,12 @@ def one_case(ctx, c):
                 un = None; via = False
     if un is None:
         try:
-            un = DenseGenotypeMatrix(dmat.copy(), ploidy=P, **{k: v.copy() for k, v in meta.items()})
+            dm = dmat.copy()
+            if layout == "fortran":
+                dm = numpy.asfortranarray(dm)
+            elif layout == "strided view":
+                bigd = numpy.zeros((2 * n, 2 * m), dtype="int8"); bigd[::2, ::2] = dmat; dm = bigd[::2, ::2]
+            un = DenseGenotypeMatrix(dm, ploidy=P, **{k: v.copy() for k, v in meta.items()})
             ctx.hook("subject DenseGenotypeMatrix built directly")
         except Exception as e:
             ctx.raised("DenseGenotypeMatrix.__init__", e)
@@ -546,7 +567,7 @@ def one_case(ctx, c):
         judge_projection(ctx, SP, SU, R, iN, iP, W, coords)
 
 
-QUICK_TOTAL, THOROUGH_TOTAL = 16000, 800000
+QUICK_TOTAL, THOROUGH_TOTAL = 16000, 600000
 
 
 def run_shard(ctx):
